@@ -1094,6 +1094,82 @@ func (env *SpecEnv) call(n *ast.CallExpr) sv {
 			return sv{V: c.Bool(!sv0.Tag.Segs[0].Unordered), T: boolT}
 		}
 		return sv{V: c.True(), T: boolT}
+	case "text":
+		// text(part, ...): the string made of the parts in order; a part is a string expression, dec(x)
+		// (signed decimal rendering of an integer) or udec(x) (unsigned). The result carries the list of its
+		// segments, so that texteq can compare renderings without reasoning about digits.
+		var segs []StrSeg
+		for _, a := range n.Args {
+			if ce, ok := a.(*ast.CallExpr); ok {
+				if id, ok := ce.Fun.(*ast.Ident); ok && (id.Name == "dec" || id.Name == "udec") && len(ce.Args) == 1 {
+					x, _ := env.term(env.eval(ce.Args[0]), sv{V: e.idx(0), T: types.Typ[types.Int64]})
+					segs = append(segs, StrSeg{Kind: "dec", T: x, Signed: id.Name == "dec"})
+					continue
+				}
+			}
+			v := env.eval(a)
+			sval, ok := v.V.(*StringVal)
+			if !ok {
+				env.fail("text: part %s is not a string", exprText(a))
+			}
+			if str, isc := concreteString(sval); isc {
+				segs = append(segs, StrSeg{Kind: "lit", Lit: str})
+			} else if sval.Tag != nil {
+				segs = append(segs, sval.Tag.Segs...)
+			} else {
+				segs = append(segs, StrSeg{Kind: "str", S: sval})
+			}
+		}
+		return sv{V: e.stringFromSegs(env.st, segs), T: types.Typ[types.String]}
+	case "texteq":
+		// texteq(a, b): a and b are the same text, decided segment by segment (literal against literal,
+		// number against number, embedded string against embedded string). Different segmentations of
+		// possibly equal texts are not recognised (the result is then false).
+		av, bv := arg(0), arg(1)
+		as, ok1 := av.V.(*StringVal)
+		bs, ok2 := bv.V.(*StringVal)
+		if !ok1 || !ok2 {
+			env.fail("texteq of %T, %T", av.V, bv.V)
+		}
+		sa, oka := concreteString(as)
+		sb, okb := concreteString(bs)
+		if oka && okb {
+			return sv{V: c.Bool(sa == sb), T: boolT}
+		}
+		na, nb := normSegs(e, as), normSegs(e, bs)
+		if na == nil || nb == nil || len(na) != len(nb) {
+			return sv{V: c.False(), T: boolT}
+		}
+		r := c.True()
+		for i := range na {
+			x, y := na[i], nb[i]
+			if x.Kind != y.Kind {
+				return sv{V: c.False(), T: boolT}
+			}
+			switch x.Kind {
+			case "lit":
+				if x.Lit != y.Lit {
+					return sv{V: c.False(), T: boolT}
+				}
+			case "dec":
+				if x.Signed != y.Signed || x.T.S != y.T.S {
+					// renderings of the same non-negative value agree; compare in the wider reading
+					if x.T.S != y.T.S {
+						return sv{V: c.False(), T: boolT}
+					}
+					if x.Signed != y.Signed {
+						r = c.And(r, c.Eq(x.T, y.T), c.Le(zeroOf(c, x.T.S), x.T, true))
+						continue
+					}
+				}
+				r = c.And(r, c.Eq(x.T, y.T))
+			case "str":
+				r = c.And(r, e.strEq(env.st, x.S, y.S))
+			default:
+				return sv{V: c.False(), T: boolT}
+			}
+		}
+		return sv{V: r, T: boolT}
 	case "isdec":
 		// isdec(s, x): s is the decimal rendering of an integer equal to x
 		v := arg(0)
@@ -1313,6 +1389,53 @@ func (env *SpecEnv) deepEq(a, b Val, sa, sb *State, depth int) *Term {
 }
 
 // concreteString returns the Go string when every byte and the length are constants.
+// normSegs: the segment list of a tagged string with constant numbers rendered and adjacent literals merged.
+func normSegs(e *Exec, s *StringVal) []StrSeg {
+	var in []StrSeg
+	if str, ok := concreteString(s); ok {
+		in = []StrSeg{{Kind: "lit", Lit: str}}
+	} else if s.Tag != nil {
+		in = s.Tag.Segs
+	} else {
+		in = []StrSeg{{Kind: "str", S: s}}
+	}
+	var out []StrSeg
+	for _, sg := range in {
+		switch sg.Kind {
+		case "lit":
+		case "dec", "udec":
+			sg.Kind = "dec"
+			if sg.T.IsConst() {
+				v := new(big.Int).Set(sg.T.C)
+				if sg.Signed && sg.T.S.IsBV() && v.Bit(sg.T.S.W-1) == 1 {
+					v.Sub(v, new(big.Int).Lsh(big.NewInt(1), uint(sg.T.S.W)))
+				}
+				sg = StrSeg{Kind: "lit", Lit: v.String()}
+			}
+		case "str":
+			if str, ok := concreteString(sg.S); ok {
+				sg = StrSeg{Kind: "lit", Lit: str}
+			}
+		default:
+			return nil
+		}
+		if sg.Kind == "lit" {
+			if sg.Lit == "" {
+				continue
+			}
+			if len(out) > 0 && out[len(out)-1].Kind == "lit" {
+				out[len(out)-1].Lit += sg.Lit
+				continue
+			}
+		}
+		out = append(out, sg)
+	}
+	if out == nil {
+		out = []StrSeg{}
+	}
+	return out
+}
+
 func concreteString(s *StringVal) (string, bool) {
 	if !s.Len.IsConst() || !s.Off.IsConst() || !s.Len.C.IsInt64() || s.Len.C.Int64() > 1<<20 {
 		return "", false
